@@ -22,6 +22,8 @@ ASSUMPTIONS = [
     "YAML byte/bit/size/inverted/exclusive_of/min/max are the declared layout",
     "stored value of an inverted option = not logical value; exclusive partner is cleared on assignment (any assignment, as the library's descriptor documents)",
 ]
+# classes of cases that are produced deterministically: their absence is a harness error (see vlib.harness)
+HARD_LABELS = ['single', 'pair', 'second_generation_same_option']
 REQUIRED_LABELS = {t: ["single", "pair", "random", "clamped", "inverted_set", "exclusive_set", "second_generation_same_option", "multibit_lowered_on_loaded_object", "random_with_later_generations"] for t in ("quick", "thorough")}
 
 OPTION_TYPES = ["AnalogGenerator", "MetaModule", "MultiSynth", "Sampler", "Sound2Ctl"]
